@@ -101,6 +101,31 @@ CHECKS.update({
         ref="DESIGN.md section 6 C15"),
 })
 
+CHECKS.update({
+    "C03": dict(
+        technique="TLA+ model checking that uniform data give the empty formal residual for every compatible boundary pair (TLC, "
+                  "FVM1D/FVM2D with a free flux) + TLC-judged residual / solve tokens of the real code on uniform states",
+        text="With a free flux the residual of uniform data vanishes structurally iff reconstructions return the cell value and "
+             "boundary states equal the interior state: invariants InvConst/InvConst2 on all small meshes; the real operators are run "
+             "on uniform states over Mach -2.2..3, six decades, every flux/reconstruction/matching boundary pair (parameters from the "
+             "code's own nameddata), every integrator with and without dtlocal, the nozzle at rest with non-trivial sections, 2D angles.",
+        ref="DESIGN.md section 6 C03"),
+    "C13": dict(
+        technique="TLA+ model checking of reflection equivariance of the free-flux operator (formal mirror of every flux term, TLC) + "
+                  "TLC-judged problem-vs-twin comparisons of the real code (mirror: ulps; power-of-two units: bitwise)",
+        text="InvMirror on all lattice meshes x reconstructions x BC pairs exposes any left/right asymmetry of gradients, "
+             "reconstruction or boundary treatment at design level; the real code is run on random problems (all models, fluxes, "
+             "reconstructions, every Euler/SW boundary type on either side, all integrators) and on their mirror / rescaled twins.",
+        ref="DESIGN.md section 6 C13"),
+    "C19": dict(
+        technique="TLC-judged difference of two real space operators (with and without sources) with recording source callables + "
+                  "exact-arithmetic judgement of the operator's source stage (table flux records) + exact definition of the nozzle term",
+        text="Sources are observed at the source[i](x, Q) seam (arguments and values); TLC judges rhs_with - rhs_without against the "
+             "recorded source on its own equation and zero elsewhere, for all subsets of equations and source shapes, for euler1d, "
+             "shallow water and the nozzle (user + geometric sources); the geometric term is compared with its definition.",
+        ref="DESIGN.md section 6 C19"),
+})
+
 NOT_YET = "check not built yet in this round (work in progress; see DESIGN.md section 6 for the planned TLA+ model and binding)"
 NOT_APPLICABLE = {
     "C04": "asymptotic convergence order against irrational exact solutions over mesh sequences: no finite-state exact-arithmetic "
